@@ -186,8 +186,11 @@ Module Examples.
     route_diagnose g2 (mkParams 0 3 1600000 2 None 1008 19 nil nil true)
       (mkPath (mkHop 11 1 1000 40 :: mkHop 21 3 800000 42 :: nil) None ::
        mkPath (mkHop 911 1 1000 40 :: mkHop 21 3 800000 42 :: nil) None :: nil) = 10 /\
-    (* excluding either identifier excludes the channel, whichever name the route uses *)
-    one (911 :: nil) 11 21 = 6 /\ one (11 :: nil) 911 21 = 6 /\
+    (* exclusion is by the identifiers as routes name them: listing the route identifier 11 excludes
+       the channel under whichever name a hop reaches it, a hop naming a listed scid is excluded,
+       but listing 911 — which no route would contain — does not exclude the channel named 11 *)
+    one (11 :: nil) 11 21 = 6 /\ one (11 :: nil) 911 21 = 6 /\ one (911 :: nil) 911 21 = 6 /\
+    one (911 :: nil) 11 21 = 0 /\
     (* a channel whose announcement requires an unknown feature is not usable *)
     one nil 11 22 = 5.
   Proof. vm_compute. repeat split; reflexivity. Qed.
